@@ -147,6 +147,10 @@ def D11():
     m.Root.parse_obj({"a": "\U0001F600"})
 
 
+def D22():
+    _pipeline([{"phone": "12345678901-2"}], datetime=True)
+
+
 def D13():
     samples = [{"a": None}, {"a": ["1"]}]
     for fw in ("attrs", "dataclasses"):
